@@ -268,8 +268,12 @@ func ToDate(ctx *expr.Context, input system.Collection, args ...expr.Expression)
 	case system.Date:
 		return system.Collection{value}, nil
 	case system.DateTime:
-		dt := value.String()
-		result := system.MustParseDate(dt[:10])
+		// the date part precedes the 'T'; a partial DateTime has a partial date
+		datePart, _, _ := strings.Cut(value.String(), "T")
+		result, err := system.ParseDate(datePart)
+		if err != nil {
+			return system.Collection{}, nil
+		}
 		return system.Collection{result}, nil
 	case system.String:
 		result, err := system.ParseDate(string(value))
